@@ -1,8 +1,17 @@
-//! `ScriptRng`: an RNG whose output stream is a script chosen by the generator (then zeros, so
-//! rejection loops terminate: the all-zero word is always accepted), recording how many bytes
-//! were consumed. The property quantifies over RNG output streams; the script IS the stream.
+//! `ScriptRng`: an RNG whose output stream is a byte script chosen by the generator, followed by a
+//! fixed pseudo-random tail (a pure function of the position, see `stream_byte`), recording how
+//! many bytes were consumed. The property quantifies over RNG output streams; script + tail IS
+//! the stream. The tail is pseudo-random rather than constant so that a rejection loop terminates
+//! for every sampler that accepts a positive fraction of the words, whichever words those are
+//! (a constant tail would hang a sampler that happens to reject that one word - which the
+//! property allows). A sampler that has not returned after `TAIL_CAP` tail bytes is reported by a
+//! panic whose message starts with `SAMPLER-STUCK` (classified as behaviour of the code under
+//! test, not as a harness error).
 
 use rand_core::{impls, Error, RngCore};
+
+/// tail bytes after which the sampler is declared stuck (>= 128 words at every tested width)
+pub const TAIL_CAP: usize = 1 << 17;
 
 #[derive(Clone, Debug)]
 pub struct ScriptRng {
@@ -10,11 +19,29 @@ pub struct ScriptRng {
     pos: usize,
 }
 
+fn splitmix(mut x: u64) -> u64 {
+    x = x.wrapping_add(0x9e37_79b9_7f4a_7c15);
+    x = (x ^ (x >> 30)).wrapping_mul(0xbf58_476d_1ce4_e5b9);
+    x = (x ^ (x >> 27)).wrapping_mul(0x94d0_49bb_1331_11eb);
+    x ^ (x >> 31)
+}
+
+/// byte `pos` of the stream made of `script` followed by the fixed tail
+pub fn stream_byte(script: &[u8], pos: usize) -> u8 {
+    match script.get(pos) {
+        Some(b) => *b,
+        None => {
+            let j = (pos - script.len()) as u64;
+            (splitmix(0x5eed_0000 + j / 8) >> (8 * (j % 8))) as u8
+        }
+    }
+}
+
 impl ScriptRng {
     pub fn new(script: &[u8]) -> ScriptRng {
         ScriptRng { script: script.to_vec(), pos: 0 }
     }
-    /// number of bytes drawn so far (beyond the script: zeros)
+    /// number of bytes drawn so far (script, then tail)
     pub fn consumed(&self) -> usize {
         self.pos
     }
@@ -29,12 +56,44 @@ impl RngCore for ScriptRng {
     }
     fn fill_bytes(&mut self, dest: &mut [u8]) {
         for b in dest.iter_mut() {
-            *b = self.script.get(self.pos).copied().unwrap_or(0);
+            *b = stream_byte(&self.script, self.pos);
             self.pos += 1;
+        }
+        if self.pos > self.script.len() + TAIL_CAP {
+            panic!("SAMPLER-STUCK: {} bytes drawn beyond the {}-byte script (pseudo-random words) without returning", self.pos - self.script.len(), self.script.len());
         }
     }
     fn try_fill_bytes(&mut self, dest: &mut [u8]) -> Result<(), Error> {
         self.fill_bytes(dest);
         Ok(())
     }
+}
+
+pub fn self_test() -> Result<u64, String> {
+    let s = [1u8, 2, 3];
+    let mut r = ScriptRng::new(&s);
+    let mut buf = [0u8; 40];
+    r.fill_bytes(&mut buf);
+    if buf[..3] != s || r.consumed() != 40 {
+        return Err("script prefix / consumed".into());
+    }
+    for (i, b) in buf.iter().enumerate() {
+        if *b != stream_byte(&s, i) {
+            return Err(format!("stream_byte mismatch at {i}"));
+        }
+    }
+    // the tail is varied: among the first 64 tail bytes at least 32 distinct values' worth of bits
+    let distinct: std::collections::HashSet<u8> = (3..67).map(|i| stream_byte(&s, i)).collect();
+    if distinct.len() < 24 {
+        return Err("tail not varied".into());
+    }
+    let mut r2 = ScriptRng::new(&s);
+    let a = r2.next_u64();
+    let mut r3 = ScriptRng::new(&s);
+    let mut b8 = [0u8; 8];
+    r3.fill_bytes(&mut b8);
+    if a != u64::from_le_bytes(b8) {
+        return Err("next_u64 is not the little-endian read of the stream".into());
+    }
+    Ok(4)
 }
